@@ -834,6 +834,7 @@ func Compare(refTree *Tree, compTrees <-chan Trees, tips, comparetreeidentical b
 		wg.Add(1)
 		go func(cpu int) {
 			for treeV := range compTrees {
+				verifGate("compare.recv", cpu, treeV.Id)
 				total2 := 0
 				common := 0
 				var inerr error
@@ -844,6 +845,8 @@ func Compare(refTree *Tree, compTrees <-chan Trees, tips, comparetreeidentical b
 				if inerr == nil {
 					if inerr = treeV.Tree.ReinitIndexes(); inerr == nil {
 						edges2 := treeV.Tree.Edges()
+						verifGate("compare.mid1", cpu, treeV.Id)
+						verifGate("compare.mid2", cpu, treeV.Id)
 						if inerr = refTree.CompareTipIndexes(treeV.Tree); err == nil {
 							sametree = true
 							for _, e2 := range edges2 {
@@ -873,6 +876,7 @@ func Compare(refTree *Tree, compTrees <-chan Trees, tips, comparetreeidentical b
 						}
 					}
 				}
+				verifGate("compare.send", cpu, treeV.Id)
 				stats <- BipartitionStats{
 					treeV.Id,
 					total - common,
@@ -882,6 +886,7 @@ func Compare(refTree *Tree, compTrees <-chan Trees, tips, comparetreeidentical b
 					inerr,
 				}
 			}
+			verifGate("compare.done", cpu, -1)
 			wg.Done()
 		}(cpu)
 	}
@@ -940,6 +945,7 @@ func CompareWeighted(refTree *Tree, compTrees <-chan Trees, tips, comparetreeide
 		wg.Add(1)
 		go func(cpu int) {
 			for treeV := range compTrees {
+				verifGate("cmpw.recv", cpu, treeV.Id)
 				var inerr error
 				inerr = treeV.Err
 
@@ -960,6 +966,8 @@ func CompareWeighted(refTree *Tree, compTrees <-chan Trees, tips, comparetreeide
 							compIndex.PutEdgeValue(e, i, e.Length())
 						}
 
+						verifGate("cmpw.mid1", cpu, treeV.Id)
+						verifGate("cmpw.mid2", cpu, treeV.Id)
 						// The trees have the same tips, we can compare them
 						if inerr = refTree.CompareTipIndexes(treeV.Tree); err == nil {
 							sametree = true
@@ -1008,6 +1016,7 @@ func CompareWeighted(refTree *Tree, compTrees <-chan Trees, tips, comparetreeide
 					}
 				}
 
+				verifGate("cmpw.send", cpu, treeV.Id)
 				stats <- WeightedBipartitionStats{
 					treeV.Id,
 					Ref,
@@ -1017,6 +1026,7 @@ func CompareWeighted(refTree *Tree, compTrees <-chan Trees, tips, comparetreeide
 					inerr,
 				}
 			}
+			verifGate("cmpw.done", cpu, -1)
 			wg.Done()
 		}(cpu)
 	}
